@@ -278,6 +278,25 @@ def _other_routes(n, pairs, f, rec):
         judge("dot_bracket of BpSeq.from_string(text)", snap, b.dot_bracket, None)
     except Exception:
         pass
+    # ... and read from a dot-bracket FILE whose levels use the letter brackets (Aa, Bb: every level raised by four),
+    # with and without a header line, with Windows line endings: `the` notation is judged as the notation of the
+    # structure that was written into the file
+    if max(fl) + 4 < 29:
+        from vmon import emit
+
+        want_snap = mon2d.snapshot(mon2d.make_bpseq(n, pairs, seq))
+        raised = _text(f, [l + 4 for l in fl])
+        for how, content in (("header", f">strand_A\n{seq}\n{raised}\n"), ("plain", f"{seq}\n{raised}\n"), ("header-crlf", f">strand_A\r\n{seq}\r\n{raised}\r\n")):
+            path = emit.scratch_path(".dbn")
+            with open(path, "w", newline="") as fh:
+                fh.write(content)
+            try:
+                res = common.BpSeq.from_dotbracket(common.DotBracket.from_file(path)).dot_bracket
+            except Exception as e:
+                rec.violation("optimal.no-crash", {"route": "from_file:" + how, "text": content, "exception": repr(e)[:200]}, mechanism=f"crash:{type(e).__name__}:from_file")
+                continue
+            rec.count("route:from_file:" + how)
+            judge("dot_bracket of BpSeq.from_dotbracket(DotBracket.from_file(letter levels, " + how + "))", want_snap, res, None)
     # derived objects: `the` notation of the structure without isolated pairs / without pseudoknots is judged as the
     # notation of THAT structure (the source's notation has been computed before, as a caller printing both would)
     try:
